@@ -210,6 +210,30 @@ func init() {
 		Gen:  func(t *rapid.T) *Case { return GenCase(t, p34) },
 		Rule: "2-5 clients doing short transactions with dense schedule points in readTs/newCommitTs/doneCommit and in both WaterMark.process goroutines; invariants: (i) when NewTransaction returns readTs no commit <= readTs is still in flight and every acknowledged commit is <= readTs, (ii) at every watermark advance d0->d1 no index in (d0,d1] has Begin without Done, (iii) every waiter is released (deadlock detector + step budget). non-trivial = run in which a transaction began while another commit was in flight",
 	})
+	// C07 / C11 / C14: close + re-open cycles after histories with and without compaction
+	pre := profT("K-REOPEN")
+	pre.Compaction = true
+	pre.MaxOps = 20
+	pre.MaxKeys = 10
+	pre.WDel = 3
+	pre.Groups = [][]string{{"client", "compactor", "flusher", "subcompact", "builder"}, nil}
+	preT := profT("T-REOPEN")
+	preT.MaxOps = 20
+	preT.Compress, preT.Encrypt = true, true
+	genReopen := func(t *rapid.T) *Case {
+		if rapid.IntRange(0, 2).Draw(t, "with_compaction") > 0 {
+			return GenCase(t, pre)
+		}
+		return GenCase(t, preT)
+	}
+	runReopen := func(t *testing.T, c *Case, keep bool) Outcome { return ExecuteReopen(t, c, pre, keep) }
+	reopenRule := "histories of transactions (with pre-fill, flushes and, in 2/3 of the cases, real compactors) followed, under the scheduler, by: full dump (all keys + AllVersions) -> Close -> hash of every file -> read-only Open + full dump -> Close -> hash again -> read-write Open with other compaction settings (compactors on/off, table size, CompactL0OnClose) -> full dump -> commits on an existing and a new key. "
+	register(&Scenario{Prop: "C07", Family: "R", Level: "exploration", Profile: pre, Gen: genReopen, Run: runReopen, NonTrivialProbe: "reopen_rw_verified",
+		Rule: reopenRule + "C07 oracles: visible state identical across both re-opens and equal to the model; versions after re-open are a subset of those before; the read-only session created/modified/deleted no file. non-trivial = the whole cycle was verified"})
+	register(&Scenario{Prop: "C11", Family: "R", Level: "exploration", Profile: pre, Gen: genReopen, Run: runReopen, NonTrivialProbe: "reopen_rw_verified",
+		Rule: reopenRule + "C11 oracle: the commits after re-open are visible and their Item.Version() exceeds every version in the AllVersions dump (also checked after every recovered crash image by C08/C09/C10). non-trivial = the whole cycle was verified"})
+	register(&Scenario{Prop: "C14", Family: "R", Level: "exploration", Profile: pre, Gen: genReopen, Run: runReopen, NonTrivialProbe: "reopen_rw_verified",
+		Rule: reopenRule + "C14 oracles after re-open (and after every recovered crash image in C08/C09/C10): .sst files on disk == tables of the MANIFEST/levels, every level >= 1 sorted and disjoint on user keys (all versions of a key in one table), Open's own level validation passes. non-trivial = the whole cycle was verified"})
 	// C09 torn tails of WAL / value log / MANIFEST
 	p9 := profT("R-C09")
 	p9.MinClients, p9.MaxClients, p9.MaxOps = 1, 2, 8
